@@ -75,7 +75,15 @@ func dumpSettle(c *Chain) []string {
 			if t, err := c.App.OracleKeeper.GetTipsAtBlockForTipper(ctx, blockOf[kv.Key.K1()], kv.Key.K2()); err == nil {
 				tips = t
 			}
-			ts = append(ts, fmt.Sprintf("%d:%s:%d:%s:%s:%v:%s", kv.Key.K1(), c.nameOf(kv.Key.K2()), kv.Value.Vote, kv.Value.ReporterPower, kv.Value.TokenholderPower, kv.Value.RewardClaimed, tips))
+			// the voter's reporter group (its current selection) and that reporter's stake at the dispute's block
+			grp, gst := "-", math.ZeroInt()
+			if sel, err := c.App.ReporterKeeper.Selectors.Get(ctx, kv.Key.K2()); err == nil {
+				grp = c.nameOf(sel.Reporter)
+				if st, err := c.App.ReporterKeeper.GetReporterTokensAtBlock(ctx, sel.Reporter, blockOf[kv.Key.K1()]); err == nil {
+					gst = st
+				}
+			}
+			ts = append(ts, fmt.Sprintf("%d:%s:%d:%s:%s:%v:%s:%s:%s", kv.Key.K1(), c.nameOf(kv.Key.K2()), kv.Value.Vote, kv.Value.ReporterPower, kv.Value.TokenholderPower, kv.Value.RewardClaimed, tips, grp, gst))
 		}
 		it.Close()
 	}
@@ -217,6 +225,11 @@ func genSettleHist(r *Rng, i int, tier string) []string {
 	tx("mkrep a0 0 1000000")
 	tx("del a1 v%d %d", r.Intn(nv), odd())
 	tx("sel a1 a0")
+	twoSel := r.Chance(1, 2)
+	if twoSel { // a second selector of a0 (its stake is part of a0's reporting stake and of its voting weight)
+		tx("del a2 v%d %d", r.Intn(nv), odd())
+		tx("sel a2 a0")
+	}
 	// tippers: voting power of the user group
 	tx("tip a4 q0 %d", r.Range(1000, 5e6))
 	if r.Chance(1, 2) {
@@ -261,6 +274,12 @@ func genSettleHist(r *Rng, i int, tier string) []string {
 	// votes of any subset: reporters (v0, v1, a0), users (a3, a4), token holders (everybody with balance), team (a6)
 	voters := []string{"v0", "v1", "a0", "a1", "a3", "a4", "a5", "a6", "a2"}
 	votes := func(id int) {
+		if twoSel && r.Chance(3, 4) { // both selectors vote before (or around) their reporter
+			order := [][]string{{"a1", "a2", "a0"}, {"a2", "a1", "a0"}, {"a1", "a2", "a0"}, {"a1", "a0", "a2"}, {"a0", "a1", "a2"}}[r.Intn(5)]
+			for _, v := range order {
+				tx("vote %s %d %s", v, id, r.PickS("s", "a", "i"))
+			}
+		}
 		n := r.Intn(6)
 		for j := 0; j < n; j++ {
 			ch := r.PickS("s", "s", "a", "i")
